@@ -45,6 +45,8 @@ DATA_A: dict[str, Any] = {
     "s": "hello", "u": "World Wide", "n": 3, "m": 0, "t": True, "f": False, "z": None,
     "arr": [1, 2, 3, 4, 5, 6], "words": ["b", "a", "c", "a"], "é": "accent", "tpl": "p",
     "fl": 2.5, "x": "X", "y": "Y", "a-b": "dash", "and": "AND",
+    # variables whose names are words the serialiser also prints bare
+    "continue": 2, "limit": [9, 8], "offset": 1, "reversed": [7], "cols": 2, "inf": "INFVAR", "my": "MY",
 }
 DATA_B: dict[str, Any] = {
     "a": {"b c": {"d": []}, "b": [], "x": "", "k": "x"},
@@ -92,6 +94,7 @@ PARTIALS: dict[str, str] = {
              "{% block b3 %}{% endblock %}]E"),
     "mid": "{% extends 'base' %}{% block b1 %}mid({{ block.super }}){% endblock b1 %}",
     "reqbase": "R[{% block rq required %}{% endblock %}]",
+    "cyc": "{% cycle 'x', 'y' %}{% cycle 'g': 1, 2 %}{% cycle s, n %}",
 }
 
 # ---------------------------------------------------------------------------
@@ -151,6 +154,10 @@ PRIMS: list[tuple[str, str, str]] = [
     (r"'\'${s}\''", "tstr-escaped-quotes", "any"), (r'''"\"${s}\"'"''', "tstr-escaped-quotes", "any"), (r"'a\n${n}\${x}'", "tstr-escapes", "any"),
     ("'${s | slice: 1, 2}'", "tstr-multi-arg-filter", "any"), ("'${nil}|${a[\"b c\"].d[0].e}'", "tstr-nil-path", "any"),
     ("'${ s if t else n }'", "tstr-ternary", "any"),
+    ("1.0e999", "float-overflow", "any"), ("-1.0e999", "float-overflow-neg", "any"),
+    ("['continue']", "path-bracketed-root-loop-keyword", "any num"), ("['limit']", "path-bracketed-root-loop-keyword", "any iter"),
+    ("['reversed']", "path-bracketed-root-loop-keyword", "any iter"), ("['offset']", "path-bracketed-root-loop-keyword", "any num"),
+    ("['cols']", "path-bracketed-root-loop-keyword", "any num"), ("['inf']", "path-bracketed-root-ident", "any"),
     # template strings whose literal segments mix the quote kinds (one segment has only ', another
     # only "), both outer quote styles, with backslashes and ${-lookalikes in the segments
     (r'''"it's ${s} saying \"hi\""''', "tstr-mixed-quotes-dq", "any"),
@@ -232,6 +239,12 @@ SITES_ANY: list[tuple[str, str]] = [
     ("{% tablerow i in {} %}{{ i }}{% endtablerow %}", "tablerow-iter"),
     ("{{ {}, {} | join: '-' }}", "array-literal"),
     ("{% for i in {}, 2 %}{{ i }}{% endfor %}", "for-array-literal"),
+    ("{% for i in 2, {} %}{{ i }};{% endfor %}", "for-array-literal-second"),
+    # single-element array literals (a trailing comma is what makes them arrays)
+    ("{{ {}, | json }}", "array-literal-single"),
+    ("{% assign v = {}, %}[{{ v | first }}|{{ v | size }}]", "assign-array-literal-single"),
+    ("{% for i in {}, %}{{ i }};{% endfor %}", "for-array-literal-single"),
+    ("{% echo {}, | join: '+' %}", "echo-array-literal-single"),
 ]
 SITES_NUM: list[tuple[str, str]] = [
     ("{% for i in arr limit: {} %}{{ i }}{% endfor %}", "for-limit"),
@@ -533,6 +546,21 @@ def _tag_units() -> Iterator[tuple[str, str]]:
     yield "{% macro m a b: 2 %}{{ a }}{{ b }}{% endmacro %}{% call m 1 2 %}{% call m b: 1, 2 %}{% call m, 1, %}", "macro-no-commas"
     yield "{% macro m a: nil, b: (1..2), c: 'x${s}', d: a.b[0], e: 1.5, f: true %}{{ a }}{{ b }}{{ c }}{{ d }}{{ e }}{{ f }}{% endmacro %}{% call m %}{% call m f: false, a: n %}", "macro-default-kinds"
     yield "{% macro m x %}{{ x }}{{ s }}{% include 'p' %}{% endmacro %}{% call m 1 %}", "macro-disabled-include"
+    yield "{% cycle 'x', 'y' %}{% include 'cyc' %}{% cycle 'x', 'y' %}|{% cycle 'g': 1, 2 %}{% render 'cyc' %}{% cycle s, n %}", "cycle-group-shared-with-partial"
+    # quoted names that are not identifiers
+    yield "{% cycle 'a b': 1, 2 %}{% cycle 'a b': 1, 2 %}{% cycle \"c-d e\": 'x', 'y' %}", "cycle-name-with-space"
+    yield "{% cycle '': 1, 2 %}{% cycle 1, 2 %}{% cycle '': 1, 2 %}", "cycle-empty-name"
+    yield "{% cycle 'and': 1, 2 %}{% cycle '1': 1, 2 %}{% cycle 'é ü': 1, 2 %}", "cycle-odd-names"
+    yield "{% block 'my b' %}x{% endblock %}{% block \"it's\" %}y{% endblock \"it's\" %}", "block-name-with-space"
+    yield "{% extends 'base' %}{% block 'b1' %}quoted-name{% endblock 'b1' %}", "block-quoted-name-override"
+    yield "{% macro 'my func' %}M{% endmacro %}{% call 'my func' %}{% call my %}{% call 'my' %}", "macro-name-with-space"
+    yield "{% macro 'my func' a, b: 2 %}[{{ a }}{{ b }}{{ func }}]{% endmacro %}{% call 'my func' 1 %}{% call \"my func\" b: 3, 4 %}", "macro-name-with-space-args"
+    yield "{% macro '' %}E{% endmacro %}{% call '' %}", "macro-empty-name"
+    yield "{% include 'p' with s as 'my x' %}{% render 'p' for arr as 'x y' %}", "alias-with-space"
+    yield "{% assign x = 'ab', %}{{ x | first }}|{% for i in 'ab', %}{{ i }};{% endfor %}|{{ 'ab', | size }}", "array-literal-single"
+    yield "{% for x in arr offset: ['continue'] %}{{ x }}{% endfor %}|{% for x in arr offset: continue %}{{ x }}{% endfor %}", "for-offset-variable-named-continue"
+    yield "{% for x in a.b, ['limit'] %}{{ x }};{% endfor %}{% for x in ['limit'], ['reversed'] %}{{ x }};{% endfor %}", "for-array-literal-keyword-names"
+    yield "{{ 1.0e999 }}|{{ -1.0e999 }}|{{ 1.0e999 | json }}|{% if 1.0e999 > 1 %}T{% endif %}", "float-overflow"
     # with
     yield "{% with p: 1, y: s %}{{ p }}{{ y }}{% endwith %}[{{ p }}]{% with %}x{% endwith %}{% with q = n %}{{ q }}{% endwith %}", "with"
     yield "{% with a: (1..3), b: 'x${s}', c: nil, d: a.b[0] %}{{ a }}{{ b }}{{ c }}{{ d }}{% endwith %}", "with-arg-kinds"
@@ -586,6 +614,58 @@ def _tag_units() -> Iterator[tuple[str, str]]:
     yield "{% assign v = 1.0e20 %}{{ v | json }}{% if 1.0e16 > 1 %}T{% endif %}{% for i in arr limit: 1e0 %}{{ i }}{% endfor %}", "number-sites"
 
 
+def _branch_units() -> Iterator[tuple[str, str]]:
+    """Every block-bearing tag with each of its branches empty / whitespace-only /
+    comment-only / inline-comment-only, every marker pair on the tag that opens that branch and
+    two settings on the tag that closes it, next to text that starts and ends with whitespace.
+    The data sets take either side of every condition."""
+    fillers = [("", "empty"), (" \n\t ", "space"), ("{# c #}", "comment"), (" {% # c %} ", "inline-comment")]
+    # (name, template with {O} = tag opening the branch, {C} = tag closing it, {B} = branch body)
+    shapes = [
+        ("if-body", "{% if t %}", "{O:if t}{B}{C:else} no {% endif %}"),
+        ("if-body-no-else", "", "{O:if t}{B}{C:endif}"),
+        ("if-else", "", "{% if t %} yes {O:else}{B}{C:endif}"),
+        ("if-else-falsy", "", "{% if f %} yes {O:else}{B}{C:endif}"),
+        ("if-elsif", "", "{% if f %} yes {O:elsif t}{B}{C:else} no {% endif %}"),
+        ("if-elsif-last", "", "{% if f %} yes {O:elsif t}{B}{C:endif}"),
+        ("if-both-empty", "", "{O:if t}{C:else}{B}{% endif %}"),
+        ("unless-body", "", "{O:unless t}{B}{C:else} no {% endunless %}"),
+        ("unless-else", "", "{% unless t %} yes {O:else}{B}{C:endunless}"),
+        ("unless-elsif", "", "{% unless t %} yes {O:elsif f}{B}{C:endunless}"),
+        ("case-when", "", "{% case n %}{O:when 3}{B}{C:else} other {% endcase %}"),
+        ("case-when-last", "", "{% case n %}{% when 0 %} zero {O:when 3}{B}{C:endcase}"),
+        ("case-else", "", "{% case n %}{% when 3 %} three {O:else}{B}{C:endcase}"),
+        ("case-only-else", "", "{% case n %}{O:else}{B}{C:endcase}"),
+        ("for-body", "", "{O:for i in arr limit: 2}{B}{C:else} none {% endfor %}"),
+        ("for-body-no-else", "", "{O:for i in (1..2)}{B}{C:endfor}"),
+        ("for-else", "", "{% for i in arr limit: 2 %} {{ i }} {O:else}{B}{C:endfor}"),
+        ("for-else-taken", "", "{% for i in z %} {{ i }} {O:else}{B}{C:endfor}"),
+        ("tablerow-body", "", "{O:tablerow i in (1..2)}{B}{C:endtablerow}"),
+        ("capture-body", "", "{O:capture v}{B}{C:endcapture}[{{ v }}]"),
+        ("with-body", "", "{O:with v: 1}{B}{C:endwith}"),
+        ("block-body", "", "{O:block bb}{B}{C:endblock}"),
+        ("macro-body", "", "{O:macro m}{B}{C:endmacro} {% call m %} "),
+        ("translate-body", "", "{O:translate}{B}{C:endtranslate}"),
+        ("translate-plural", "", "{% translate count: n %} one {O:plural}{B}{C:endtranslate}"),
+        ("nested-if-else", "", "{% if t %} a {% if f %} b {O:else}{B}{C:endif} c {% endif %}"),
+    ]
+    import re as _re
+
+    for name, _unused, shape in shapes:
+        for body, bname in fillers:
+            if name.startswith("translate") and bname in ("comment", "inline-comment"):
+                continue  # comments are not allowed in translation messages
+            for l, r in itertools.product(WCS, repeat=2):
+                for l2 in ("", "-"):
+                    def sub(m: "_re.Match[str]") -> str:
+                        kind, expr = m.group(1), m.group(2)
+                        if kind == "O":
+                            return f"{{%{l} {expr} {r}%}}"
+                        return f"{{%{l2} {expr} %}}"
+                    src = _re.sub(r"\{([OC]):([^}]*)\}", sub, shape).replace("{B}", body)
+                    yield f" \n pre \n {src} \n post \n ", f"branch-{name}-{bname}"
+
+
 def unit_cases() -> list[tuple[str, str, str]]:
     """[(label, feature, source)] — deterministic."""
     out: list[tuple[str, str, str]] = []
@@ -622,6 +702,8 @@ def unit_cases() -> list[tuple[str, str, str]]:
         add("wc", feat, src)
     for src, feat in _tag_units():
         add("tag", feat, src)
+    for src, feat in _branch_units():
+        add("branch", feat, src)
     return out
 
 
